@@ -138,6 +138,12 @@ def check_instances(ctx):
     p = lib.pamqp()
     ex = p.exceptions
     argsets = constructor_arguments()
+    # ... an error wrapped in another (raise AMQPInternalError(err)): every
+    # other reply-code class's instance, the bases', a foreign exception
+    others = [cls_('inner') for cls_ in ex.CLASS_MAPPING.values()]
+    others += [ex.AMQPError('e'), ex.AMQPSoftError('s'), ex.AMQPHardError('h'),
+               ex.PAMQPException('p'), ValueError('v'), KeyError('k')]
+    argsets = argsets + [(o,) for o in others] + [(others[0], others[1])]
     for code, name, kind in spec_table.REPLY_CODES:
         cls = ex.CLASS_MAPPING.get(code)
         if cls is None:
